@@ -1,6 +1,11 @@
-(* C01 — the regenerated right-hand sides of Phreeqc::k_calc, Phreeqc::init (LOG_10), read_delta_h_only, molalities,
-   sum_species, log_activity and saturation_index (coq/Gen/Gen_C01_code.v, rewritten from /repo on every run) are the
-   textbook formulas of C01/Spec.v.  Proofs are semantic (field / ring / lra), so harmless rewrites of the code pass. *)
+(* C01 — definitions and proof scripts that tie the REGENERATED right-hand sides of Phreeqc::k_calc, Phreeqc::init (LOG_10),
+   read_delta_h_only, molalities, sum_species, log_activity and saturation_index (coq/Gen/Gen_C01_code.v, rewritten from
+   /repo on every run) to the textbook formulas of C01/Spec.v.
+
+   This file contains: the small models built from the regenerated pieces (kcalc_model, lm_model, sum_model, si_model),
+   lemmas that do not depend on the generated text, and the proof SCRIPTS (Ltac) that Props/Properties_C01.v runs against
+   the current generated text.  The scripts are semantic (field / ring / lra), so harmless rewrites of the code pass;
+   keeping them as scripts makes a failure show up at the one theorem of Props/Properties_C01.v it concerns. *)
 From Coq Require Import Reals QArith Qreals List String Lra.
 From IPV Require Import Base.RExpr C01.Spec Gen.Gen_C01_code.
 Import ListNotations.
@@ -16,73 +21,19 @@ Definition kcalc_model (k : kvecR) (dv T P L : R) : R :=
   let dp := evalR (env_of [P]) kcalc_dp in
   if Rlt_dec 0 dp then lk + evalR (env_of [dv; dp; T; L]) kcalc_pcorr else lk.
 
-Lemma kcalc_lk_spec : forall k T, 0 < T ->
-  evalR (kenv k T (ln 10)) kcalc_lk = logK_T k T.
-Proof.
-  intros [k0 kh k1 k2 k3 k4 k5 k6] T HT. unfold kenv, kcalc_lk. cbn [kr0 krh kr1 kr2 kr3 kr4 kr5 kr6]. unfold_evalR.
-  unfold logK_T, vant_hoff, analytic, log10, R_gas, T_ref. cbn [kr0 krh kr1 kr2 kr3 kr4 kr5 kr6].
-  pose proof ln10_pos. field. lra.
-Qed.
-
-Lemma kcalc_shape :
-  kcalc_lk_vars = ["l_logk[logK_T0]"; "l_logk[delta_h]"; "l_logk[T_A1]"; "l_logk[T_A2]"; "l_logk[T_A3]"; "l_logk[T_A4]";
-                   "l_logk[T_A5]"; "l_logk[T_A6]"; "tempk"; "LOG_10"] /\
-  kcalc_lk_conds = [] /\ kcalc_lk_site_kinds = ["init"; "compound"] /\
-  kcalc_pcorr_conds = ["delta_p > 0"] /\ kcalc_dp_vars = ["presPa"] /\
-  kcalc_ret = Var 0 /\ kcalc_ret_vars = ["lk"] /\ kcalc_return_sites = 1%nat.
-Proof. repeat split; reflexivity. Qed.
-
-Lemma kcalc_dp_1atm : evalR (env_of [101325]) kcalc_dp = 0.
-Proof. unfold kcalc_dp. unfold_evalR. lra. Qed.
-
-Lemma kcalc_model_1atm : forall k dv T, 0 < T ->
-  kcalc_model k dv T 101325 (ln 10) = logK_T k T.
-Proof.
-  intros k dv T HT. unfold kcalc_model. rewrite kcalc_dp_1atm.
-  destruct (Rlt_dec 0 0) as [H|_]; [lra|]. apply kcalc_lk_spec; assumption.
-Qed.
-
-(* below the reference pressure as well (delta_p <= 0): no pressure term *)
-Lemma kcalc_model_low_p : forall k dv T P, 0 < T -> P <= 101325 ->
-  kcalc_model k dv T P (ln 10) = logK_T k T.
-Proof.
-  intros k dv T P HT HP. unfold kcalc_model.
-  assert (E : evalR (env_of [P]) kcalc_dp = P - 101325) by (unfold kcalc_dp; unfold_evalR; lra).
-  rewrite E. destruct (Rlt_dec 0 (P - 101325)) as [H|_]; [lra|]. apply kcalc_lk_spec; assumption.
-Qed.
-
-Lemma kcalc_lk_linear : forall c a b T L,
-  evalR (kenv (kadd (kscale c a) b) T L) kcalc_lk = c * evalR (kenv a T L) kcalc_lk + evalR (kenv b T L) kcalc_lk.
-Proof.
-  intros c [a0 ah a1 a2 a3 a4 a5 a6] [b0 bh b1 b2 b3 b4 b5 b6] T L.
-  unfold kenv, kadd, kscale, kcalc_lk. cbn [kr0 krh kr1 kr2 kr3 kr4 kr5 kr6]. unfold_evalR. unfold Rdiv. ring.
-Qed.
-
-Lemma kcalc_at_25C_no_analytic : forall k0 kh,
-  evalR (kenv (mkKR k0 kh 0 0 0 0 0 0) (29815 / 100) (ln 10)) kcalc_lk = k0.
-Proof.
-  intros. rewrite kcalc_lk_spec by lra. unfold logK_T, vant_hoff, analytic, T_ref, log10. cbn [kr0 krh kr1 kr2 kr3 kr4 kr5 kr6]. unfold Rdiv. ring.
-Qed.
-
-Lemma LOG_10_is_ln10 : evalR (env_of []) c01_LOG_10 = ln 10 /\ c01_LOG_10_vars = [].
-Proof. split; [|reflexivity]. unfold c01_LOG_10. unfold_evalR. f_equal. lra. Qed.
-
-(* delta_h units: "/= 1000" unless the unit starts with k; "*= 4.184" when it contains c(al) *)
-Lemma delta_h_unit_factors :
-  dh_compound_ops = ["/="; "*="] /\
-  evalR (env_of []) dh_factor_0 = 1000 /\ evalR (env_of []) dh_factor_1 = 4184 / 1000 /\
-  dh_factor_0_vars = [] /\ dh_factor_1_vars = [] /\
-  dh_compound_conds = [["j == 4 || j == 5"; "strstr(token, ""k"") != token"];
-                       ["j == 4 || j == 5"; "strstr(token, ""c"") != NULL"]].
-Proof. repeat split; try reflexivity; unfold dh_factor_0, dh_factor_1; unfold_evalR; lra. Qed.
-
-(* ---- molalities(): lm = lk - lg + sum la*coef   (tokens of rxn_x after the first) *)
-Definition lm_model (lk lg : R) (toks : list (R * R)) : R :=      (* (la, coef) *)
+(* molalities(): lm = lk - lg + sum la*coef   (tokens of rxn_x after the first; t = (la, coef)) *)
+Definition lm_model (lk lg : R) (toks : list (R * R)) : R :=
   fold_left (fun acc t => acc + evalR (env_of [fst t; snd t]) mol_lm_inc) toks (evalR (env_of [lk; lg]) mol_lm_init).
 
-Lemma fold_left_add_shift : forall (f : R * R -> R) l a, fold_left (fun acc t => acc + f t) l a = a + fold_left (fun acc t => acc + f t) l 0.
-Proof. intros f l. induction l as [|x l IH]; intros a; simpl; [lra|]. rewrite IH, (IH (0 + f x)). lra. Qed.
+(* sum_species(): an accumulator initialised with init and incremented by inc for every species *)
+Definition sum_model (init inc : rexpr) (l : list (R * R)) : R :=
+  fold_left (fun acc t => acc + evalR (env_of [fst t; snd t]) inc) l (evalR (env_of []) init).
 
+(* saturation_index(): iap accumulated over the tokens, si = iap - lk *)
+Definition si_model (lk : R) (toks : list (R * R)) : R :=
+  evalR (env_of [sum_model ro_iap_init ro_iap_inc toks; lk]) ro_si.
+
+(* ---- lemmas independent of the generated text *)
 Lemma fold_left_is_sum : forall (f : R * R -> R) l a,
   fold_left (fun acc t => acc + f t) l a = a + fold_right (fun t acc => f t + acc) 0 l.
 Proof. intros f l. induction l as [|x l IH]; intros a; simpl; [lra|]. rewrite IH. lra. Qed.
@@ -91,29 +42,6 @@ Lemma fold_right_sum_ext : forall (f g : R * R -> R), (forall t, f t = g t) ->
   forall l, fold_right (fun t acc => f t + acc) 0 l = fold_right (fun t acc => g t + acc) 0 l.
 Proof. intros f g H l. induction l as [|x l IH]; cbn [fold_right]; [reflexivity|]. rewrite IH, H. reflexivity. Qed.
 
-Lemma inc_is_product : forall t : R * R, evalR (env_of [fst t; snd t]) mol_lm_inc = snd t * fst t.
-Proof. intros t. unfold mol_lm_inc. unfold_evalR. lra. Qed.
-Lemma iap_inc_is_product : forall t : R * R, evalR (env_of [fst t; snd t]) ro_iap_inc = snd t * fst t.
-Proof. intros t. unfold ro_iap_inc. unfold_evalR. lra. Qed.
-
-Lemma molalities_mass_action : forall lk lg toks,
-  lm_model lk lg toks + lg = lk + fold_right (fun t acc => snd t * fst t + acc) 0 toks.
-Proof.
-  intros lk lg toks. unfold lm_model. rewrite fold_left_is_sum.
-  replace (evalR (env_of [lk; lg]) mol_lm_init) with (lk - lg) by (unfold mol_lm_init; unfold_evalR; reflexivity).
-  rewrite (fold_right_sum_ext _ _ inc_is_product). lra.
-Qed.
-
-Lemma molalities_shape :
-  mol_lm_site_kinds = ["assign"; "compound:+="] /\ mol_lm_init_vars = ["s_x[i]->lk"; "s_x[i]->lg"] /\
-  mol_lm_inc_vars = ["rxn_ptr->s->la"; "rxn_ptr->coef"] /\ mol_lm_init_conds = [] /\ mol_lm_inc_conds = [] /\
-  (forall lm lg, evalR (env_of [lm; lg]) mol_master_la = lm + lg).
-Proof. repeat split; try reflexivity. Qed.
-
-(* ---- sum_species(): pH, pe, charge balance, alkalinity, valence-state totals *)
-Definition sum_model (init inc : rexpr) (l : list (R * R)) : R :=
-  fold_left (fun acc t => acc + evalR (env_of [fst t; snd t]) inc) l (evalR (env_of []) init).
-
 Lemma sum_model_dot : forall init inc, evalR (env_of []) init = 0 ->
   (forall t : R * R, evalR (env_of [fst t; snd t]) inc = fst t * snd t) ->
   forall l, sum_model init inc l = dot l.
@@ -121,31 +49,31 @@ Proof.
   intros init inc Z P l. unfold sum_model. rewrite fold_left_is_sum, Z, (fold_right_sum_ext _ _ P). unfold dot. lra.
 Qed.
 
-Lemma sum_species_sums : forall l,
-  sum_model ss_cb_init ss_cb_inc l = dot l /\ sum_model ss_alk_init ss_alk_inc l = dot l /\
-  sum_model (Const 0) ss_tot_inc l = dot l.
+Lemma sum_model_dot_swapped : forall init inc, evalR (env_of []) init = 0 ->
+  (forall t : R * R, evalR (env_of [fst t; snd t]) inc = snd t * fst t) ->
+  forall l, sum_model init inc l = fold_right (fun t acc => snd t * fst t + acc) 0 l.
 Proof.
-  intros l. repeat split; apply sum_model_dot;
-    try (unfold ss_cb_init, ss_alk_init; unfold_evalR; lra);
-    intros t; unfold ss_cb_inc, ss_alk_inc, ss_tot_inc; unfold_evalR; lra.
+  intros init inc Z P l. unfold sum_model. rewrite fold_left_is_sum, Z, (fold_right_sum_ext _ _ P). lra.
 Qed.
 
-Lemma sum_species_ph_pe : forall la,
-  evalR (env_of [la]) ss_ph = - la /\ evalR (env_of [la]) ss_pe = - la /\
-  ss_ph_vars = ["s_hplus->la"] /\ ss_pe_vars = ["s_eminus->la"] /\ ss_ph_conds = [] /\ ss_pe_conds = [].
-Proof. intros. unfold ss_ph, ss_pe. repeat split; unfold_evalR; reflexivity. Qed.
+(* ---- proof scripts run by Props/Properties_C01.v against the current generated text *)
+Ltac kproj := cbn [kr0 krh kr1 kr2 kr3 kr4 kr5 kr6].
 
-(* ---- read-outs: log a = log m + log gamma ;  SI = log IAP - log K *)
-Lemma readout_la : forall lm lg, evalR (env_of [lm; lg]) ro_la = lm + lg /\ ro_la_vars = ["s_ptr->lm"; "s_ptr->lg"].
-Proof. intros. unfold ro_la. split; [unfold_evalR|]; reflexivity. Qed.
+(* forall k T, 0 < T -> evalR (env_of [kr0 k; ...; T; ln 10]) kcalc_lk = <van 't Hoff + analytic> *)
+Ltac c01_kcalc_lk :=
+  let k0 := fresh "k0" in let kh := fresh "kh" in let k1 := fresh "k1" in let k2 := fresh "k2" in let k3 := fresh "k3" in
+  let k4 := fresh "k4" in let k5 := fresh "k5" in let k6 := fresh "k6" in let T := fresh "T" in let HT := fresh "HT" in
+  intros [k0 kh k1 k2 k3 k4 k5 k6] T HT; unfold kcalc_lk; kproj; unfold_evalR;
+  pose proof ln10_pos; field; lra.
 
-Definition si_model (lk : R) (toks : list (R * R)) : R :=        (* (la, coef) *)
-  evalR (env_of [sum_model ro_iap_init ro_iap_inc toks; lk]) ro_si.
+(* linearity in the log K vector *)
+Ltac c01_kcalc_linear :=
+  let c := fresh "c" in let T := fresh "T" in let L := fresh "L" in
+  intros c [? ? ? ? ? ? ? ?] [? ? ? ? ? ? ? ?] T L; unfold kenv, kadd, kscale, kcalc_lk; kproj; unfold_evalR; unfold Rdiv; ring.
 
-Lemma readout_si : forall lk toks,
-  si_model lk toks = fold_right (fun t acc => snd t * fst t + acc) 0 toks - lk.
-Proof.
-  intros. unfold si_model, sum_model. rewrite fold_left_is_sum.
-  replace (evalR (env_of []) ro_iap_init) with 0 by (unfold ro_iap_init; unfold_evalR; lra).
-  rewrite (fold_right_sum_ext _ _ iap_inc_is_product). unfold ro_si. unfold_evalR. lra.
-Qed.
+Ltac c01_unfold_all :=
+  unfold kcalc_dp, kcalc_pcorr, c01_LOG_10, dh_factor_0, dh_factor_1, mol_lm_init, mol_lm_inc, mol_master_la,
+         ss_ph, ss_pe, ss_cb_inc, ss_alk_inc, ss_tot_inc, ss_cb_init, ss_alk_init, ro_la, ro_si, ro_iap_inc, ro_iap_init.
+
+(* closed / pointwise facts about small leaves: unfold, expose the real expression, linear arithmetic *)
+Ltac c01_leaf := intros; c01_unfold_all; unfold_evalR; try reflexivity; try lra.
